@@ -103,6 +103,9 @@ def grid(net, mode, tier):
         avoids = [[]] + [[a] for a in SP]
         if tier != "quick" and net.n <= 2:
             avoids += [[a, b] for a in SP for b in SP if a is not b]
+        elif net.n <= 2:
+            # quick: the ordered pairs in which one avoided space contains the other
+            avoids += [[a, b] for a in SP for b in SP if a is not b and (sub(a, b) or sub(b, a))]
         srcs = [None] + [list(c) for k in range(net.n + 1) for c in itertools.combinations(net.names, k)]
         limits = [None, 1, 2]
         ens_list = SP
@@ -138,6 +141,8 @@ def check_net(net, mode, tier, res, spec):
                 if problem == "max" and len(ens) == net.n:
                     continue
                 for avoid in avoids:
+                    if tier == "quick" and len(avoid) >= 2 and ens:
+                        continue  # quick: avoid pairs only with the whole space as enclosing subspace
                     for osv in ((srcs if len(avoid) < 2 else [None, []]) if problem == "max" else [None]):
                         src = default_src if osv is None else osv
                         exp = expected(net, problem, rev, ens, avoid, src)
@@ -157,6 +162,8 @@ def check_net(net, mode, tier, res, spec):
     for ret in rets:
         for ens in ens_list:
             for avoid in avoids:
+                if tier == "quick" and len(avoid) >= 2 and (ens or len(ret) > 1):
+                    continue
                 exp = expected_reduced(net, ret, ens, avoid)
                 for lim in (limits if ((not avoid or mode == "full") and len(avoid) < 2) else [None]):
                     call = ["reduced_stg", key(ret), None, key(ens), [key(a) for a in avoid], None, lim, "pn"]
